@@ -44,6 +44,7 @@ Definition eval_binary_arith (op : binop) (l r : constv) : constv + cerr :=
       | BoSub => inl (CFloat (f_sub a b))
       | BoMul => inl (CFloat (f_mul a b))
       | BoDiv => inl (CFloat (f_div a b))
+      | BoRem => inl (CFloat (f_rem a b))
       | _ => inr CeUnmodelled
       end
   | CCString a, CCString b =>
